@@ -5,6 +5,7 @@ import (
 	"go/constant"
 	"go/token"
 	"go/types"
+	"strconv"
 	"strings"
 
 	"gosx/smt"
@@ -83,6 +84,39 @@ type G struct {
 	gateKey                    string // set by vx.Gate; recorded when the goroutine next acquires a lock
 	vcl                        vclock // vector clock (race detector)
 	preempts                   int
+	path                       string // structural identity: parent's path + index among the parent's spawns from module code
+	spawns                     int
+	blockedRec                 bool // a "blocked" event was recorded for the acquire this goroutine is waiting in
+}
+
+// SyncEvent: one acquire-type operation issued from module code (the code under test or the harness), in the
+// order the scheduler executed them. Blocked: the call did not return (the goroutine waits inside it);
+// Resume: the earlier blocked call of this goroutine returned.
+type SyncEvent struct {
+	G       string `json:"g"`
+	Op      string `json:"op"`
+	Blocked bool   `json:"blocked,omitempty"`
+	Resume  bool   `json:"resume,omitempty"`
+}
+
+func (in *Interp) recordSync(fr *Frame, op string, acquired bool) {
+	if !in.Explore || fr == nil || fr.Fn == nil || !strings.HasPrefix(fnPkgPath(fr.Fn), "berty.tech/go-ipfs-log") {
+		return
+	}
+	g := in.cur
+	if g == nil {
+		return
+	}
+	if !acquired {
+		if g.blockedRec {
+			return
+		}
+		g.blockedRec = true
+		in.syncTrace = append(in.syncTrace, SyncEvent{G: g.path, Op: op, Blocked: true})
+		return
+	}
+	in.syncTrace = append(in.syncTrace, SyncEvent{G: g.path, Op: op, Resume: g.blockedRec})
+	g.blockedRec = false
 }
 
 type Program struct {
@@ -118,6 +152,7 @@ type Interp struct {
 	inputs       []namedInput
 	obs          []obsRec
 	schedTrace   []int
+	syncTrace    []SyncEvent
 	gateOrder    []string
 	sigTags      []string
 	ixCache      map[*ssa.Function]*Intrinsic
@@ -163,6 +198,7 @@ func (in *Interp) resetRun() {
 	in.inputs = nil
 	in.obs = nil
 	in.schedTrace = nil
+	in.syncTrace = nil
 	in.gateOrder = nil
 	in.sigTags = nil
 	if in.StubsHit == nil {
@@ -385,6 +421,9 @@ func (in *Interp) callValue(g *G, fr *Frame, fnv Value, args []Value, dst ssa.Va
 		if ix := in.lookupIntrinsic(f.Fn); ix != nil {
 			res, ok := ix.F(in, fr, args)
 			if res.K != KInvalid || res.R != interface{}(fallThrough) {
+				if acquireOps[ix.Name] {
+					in.recordSync(fr, ix.Name, ok)
+				}
 				return res, true, ok
 			}
 			// the intrinsic declined (e.g. all arguments concrete): interpret the real function
@@ -677,6 +716,12 @@ func (in *Interp) step(g *G) {
 	case *ssa.Go:
 		fnv, args := in.prepareCall(g, fr, &ins.Call)
 		ng := &G{id: len(in.gs)}
+		if strings.HasPrefix(fnPkgPath(fr.Fn), "berty.tech/go-ipfs-log") {
+			ng.path = g.path + "." + strconv.Itoa(g.spawns)
+			g.spawns++
+		} else {
+			ng.path = g.path + ".x"
+		}
 		in.gs = append(in.gs, ng)
 		in.raceFork(g, ng)
 		_, done, _ := in.callValue(ng, nil, fnv, args, nil)
@@ -878,7 +923,7 @@ func (in *Interp) runInits(g *G, fn *ssa.Function) {
 // Run executes fn (no args) as the main goroutine to completion (seq scheduler:
 // main has priority; when it blocks the other goroutines run FIFO).
 func (in *Interp) Run(fn *ssa.Function) {
-	main := &G{id: 0}
+	main := &G{id: 0, path: "0"}
 	in.gs = []*G{main}
 	in.cur = main
 	in.runInits(main, fn)
